@@ -408,6 +408,8 @@ def run(ctx):
     ctx.clause("C15.6 per-lane match counters are flushed before a lane can outgrow the way it is read (signed / unsigned)")
     nlc = lanes.check_lane_counters(ctx, P.funcs_under("src/simd/"))
     ctx.count("lane_counters", nlc)
+    ctx.clause("C15.7 a comparison on a zero-masked tail vector is itself masked: the lanes outside the tail (zeros) never answer")
+    ctx.count("masked_tail_compares", lanes.check_masked_tail(ctx, P.funcs_under("src/simd/")))
     rec = P.record("carquet_simd_dispatch_t") if "carquet_simd_dispatch_t" in P.records else None
     if rec is None:
         for name, r in P.records.items():
